@@ -15,7 +15,7 @@ RULE = ("(1) pure codecs through verif wrappers: Message.WriteTo, decodeMessage 
         "bodies: sizes 0/1/25/26/27, 2-63, 65-564, 4KiB+-1, 16KiB+-1; contents random, zeros, 0xff, newlines, CRLF, frame-header-like, command-like, ASCII; "
         "timestamps 0/-1/min/max int64/now/negative/random; attempts 0/1/255/256/65535/random. "
         "(2) HTTP /pub, text /mpub, binary /mpub (Content-Length and chunked) against live daemons with default and tiny limits, observed through /stats and by consuming the channel. "
-        "(3) live paths on fresh daemons: TCP PUB/MPUB/DPUB + HTTP pub(+defer)/text mpub/binary mpub, 1-3 channels, mem-queue-size 0/1/2/10000, 1-3 deliveries per message (REQ, immediate or deferred), "
+        "(3) live paths on fresh daemons: TCP PUB/MPUB/DPUB + HTTP pub(+defer)/text mpub/binary mpub, 1-3 channels, mem-queue-size 0/1/2/10000, 1-3 deliveries per message (REQ, immediate or deferred; in some cases the first requeue is the in-flight timeout, msg_timeout 1 s), "
         "restart on the same data path, small max-bytes-per-file (file rolls), producers and consumers over a seeded walk of {plain,TLS} x {none,snappy,deflate1..9} x output_buffer_size{-1,64,16384,65536} x output_buffer_timeout{-1,default,25,1000}, "
         "other traffic interleaved on consumer connections; large bodies (4KiB+-1 .. 1MiB) compared by the harness (digest cases). Every case is non-trivial; distinct = distinct terms.")
 TRUSTED = [
@@ -47,8 +47,8 @@ DESIGN_REF = "DESIGN.md §5 C07"
 def drivers():
     def args(tier, seed, scale):
         if tier == "quick":
-            n, nh, nl, nb, big = 220 * scale, 70 * scale, 26 * scale, 3, 8
+            n, nh, nl, nb, big, nt = 220 * scale, 70 * scale, 26 * scale, 3, 8, 2
         else:
-            n, nh, nl, nb, big = 3000 * scale, 800 * scale, 400 * scale, 12, 40
-        return ["-n", str(n), "-http", str(nh), "-live", str(nl), "-livebig", str(nb), "-big", str(big), "-seed", str(seed)]
+            n, nh, nl, nb, big, nt = 3000 * scale, 800 * scale, 400 * scale, 12, 40, 20
+        return ["-n", str(n), "-http", str(nh), "-live", str(nl), "-livebig", str(nb), "-livetmo", str(nt), "-big", str(big), "-seed", str(seed)]
     return [{"driver": "wiredrive", "args": args, "replay_args": lambda tier: []}]
